@@ -24,7 +24,21 @@ def gen_params(rng, tier):
     stream = [[d, w] for d, w in gen.gen_stream(rng, spec, rng.randint(0, 16), gate_rate=0.25)]
     perm = list(range(len(stream)))
     rng.shuffle(perm)
-    return {"spec": spec, "stream": stream, "perm_seed": rng.randint(0, 10**9)}
+    # a Bin with an arbitrary (non-dyadic) number of bins, probed exactly on those of its edges that are exactly
+    # representable: there the index n*(x-low)/(high-low) is an exact integer in floating point too, so the half-open
+    # convention is decided without rounding
+    from fractions import Fraction
+
+    n = rng.randint(1, 64)
+    low = rng.randint(-8, 8) / rng.choice([1, 2, 4])
+    high = low + rng.randint(1, 40) / rng.choice([1, 2, 4])
+    xs = []
+    for k in range(0, n + 1):
+        e = Fraction(low) + Fraction(k) * (Fraction(high) - Fraction(low)) / n
+        if Fraction(float(e)) == e:
+            xs.append(float(e))
+    rng.shuffle(xs)
+    return {"spec": spec, "stream": stream, "perm_seed": rng.randint(0, 10**9), "edge": {"n": n, "low": low, "high": high, "xs": xs[:12]}}
 
 
 def build(p):
@@ -45,6 +59,14 @@ def build(p):
     for i, op in enumerate(ops):
         if op[0] == "fills":
             expect.append(("pycheck", "all_ok", i))
+    if p.get("edge"):
+        e = p["edge"]
+        cnt = {"k": "Count"}
+        espec = {"k": "Bin", "q": [0, None], "n": e["n"], "low": e["low"], "high": e["high"], "value": cnt,
+                 "underflow": cnt, "overflow": cnt, "nanflow": cnt}
+        erows = [([x, 0.0, 0.0, 0.0, "a", True, [0.0, 0.0], "a"], 1.0) for x in e["xs"]]
+        ops += [("new", "eb", espec), ("fills", "eb", erows)]
+        expect.append(("pycheck", "c02_edge_reference", "eb"))
     ops.append(("new", "zf", spec))
     # the closed-form specification of the stream (model: denote) against the filled implementation state
     ops.append(("denote", "dn", "zf", stream, "b"))
@@ -64,6 +86,19 @@ def _ref(py, replies, h):
     got = py.state(h)
     d = execs.diff_doc(got, want)
     return ("state differs from the specification's value for this multiset: %s" % d) if d else None
+
+
+@common.pycheck("c02_edge_reference")
+def _edge_ref(py, replies, h):
+    e = py.case_params["edge"]
+    cnt = {"k": "Count"}
+    espec = {"k": "Bin", "q": [0, None], "n": e["n"], "low": e["low"], "high": e["high"], "value": cnt,
+             "underflow": cnt, "overflow": cnt, "nanflow": cnt}
+    erows = [([x, 0.0, 0.0, 0.0, "a", True, [0.0, 0.0], "a"], 1.0) for x in e["xs"]]
+    want = execs.canon_doc(refeval.reference_doc(espec, erows))
+    d = execs.diff_doc(py.state(h), want)
+    return ("Bin(%d, %r, %r) filled exactly on its edges %r differs from the half-open specification: %s"
+            % (e["n"], e["low"], e["high"], e["xs"], d)) if d else None
 
 
 @common.pycheck("all_ok")
